@@ -23,6 +23,7 @@ META = {
 META["explanation"] += " " + '(TB-casepair, shared with C06) both spellings of the exponent marker are tested together.'
 META["explanation"] += " " + '(PR-expmarker, PR-accumulate: shared with C06) an exponent marker under the cursor is consumed by the exponent scanner; recognised digits are accumulated.'
 META["explanation"] += " " + '(ACC-wrap) a decimal accumulation in a loop bounded only by the end of the input is under a bound on the accumulator itself (the mantissa loops are bounded by a local 19-digit window); one named exception, the unchecked FastStringToNumber.'
+META["explanation"] += " " + '(SB-window) the two sibling computations of the 19-digit window clamp from the cursor the window starts at.'
 
 U64 = (1 << 64) - 1
 
@@ -220,4 +221,38 @@ def run(ctx):
     rules.append(rule_accumulate(ctx, m))
     from rules.common import rule_accumulator_wrap
     rules.append(rule_accumulator_wrap(ctx, m))
+    rules.append(rule_window(ctx, m))
     return rules
+
+
+
+def rule_window(ctx, m):
+    """SB-window: stringToNumber accumulates at most `max_length` digits starting at the first significant one; the end of
+    that window is computed at two sibling sites with the clamp  ((end - X) < K) ? end : (Y + K).  The clamp is only a clamp
+    when X and Y are the same cursor (the remaining length is measured from where the window starts) and K is the same constant:
+    with a different Y the window starts somewhere else (at the decimal point: every zero after it eats one of the 19 digits)."""
+    r = Rule("SB-window", "the digit window is clamped from the cursor it starts at: ((end - X) < K) ? end : (X + K)", floor=2)
+    fs = [f for f in m.functions if not f.inst and f.cfg and f.q == "Qentem::Digit::stringToNumber"]
+    if not fs:
+        r.broke("Digit::stringToNumber not found")
+        return r
+    f = fs[0]
+    ctx.note_fn(f)
+    for x in f.walk():
+        n = f.nodes[x]
+        if n["k"] != "ConditionalOperator" or len(n.get("ch", [])) != 3:
+            continue
+        c, a, b = n["ch"]
+        cn = f.nodes[f.strip(c)]
+        bn = f.nodes[f.strip(b)]
+        if cn["k"] != "BinaryOperator" or cn["op"] != "<" or bn["k"] != "BinaryOperator" or bn["op"] != "+":
+            continue
+        ln = f.nodes[f.strip(cn["ch"][0])]
+        if ln["k"] != "BinaryOperator" or ln["op"] != "-":
+            continue
+        E, X, K = f.text(ln["ch"][0]), f.text(ln["ch"][1]), f.text(cn["ch"][1])
+        Y, K2 = f.text(bn["ch"][0]), f.text(bn["ch"][1])
+        ok = X == Y and K == K2 and f.text(a) == E
+        r.ob(f.q, f.text(x)[:90], ok, "remaining length and window start use the same cursor `%s` and the same width `%s`" % (X, K) if ok else
+             "the remaining length is measured from `%s` but the window is placed at `%s` (+ %s): the clamp and the window disagree" % (X, Y, K2), f.loc(x))
+    return r
